@@ -2410,3 +2410,40 @@ variant('b-lease-release-yields-per-request', ['C14'], RB,
         ('C14.d', 'RSocketBase.handle_lease'))
 variant('b-encoding-names-lower-cased', ['C16'], 'rsocket/extensions/mimetypes.py',
         "    return ensure_bytes(encoding)\n", "    return ensure_bytes(encoding).lower()\n", ('C16.g', 'ensure_encoding_name'))
+
+# C12.n inspection of application futures
+RRR = 'rsocket/handlers/request_response_responder.py'
+variant('b-responder-fast-path-inspects-a-cancelled-future', ['C12'], RRR,
+        "        self.future.add_done_callback(self.future_done)\n",
+        "        if self.future.done() and not self.future.exception():\n            self.future_done(self.future)\n        else:\n            self.future.add_done_callback(self.future_done)\n",
+        ('C12.n', 'RequestResponseResponder.setup'))
+variant('b-future-done-forgets-the-cancelled-case', ['C12'], RRR,
+        "        if self.future.cancelled():\n            pass\n        elif not future.exception():",
+        "        if not future.exception():", ('C12.n', 'RequestResponseResponder.future_done'))
+variant('t-future-done-with-a-guard-clause', ['C12'], RRR,
+        """        if self.future.cancelled():
+            pass
+        elif not future.exception():
+            self.socket.send_payload(
+                self.stream_id, future.result(), complete=True)
+        else:
+            self.socket.send_error(self.stream_id, future.exception())
+
+        self._finish_stream()""",
+        """        if self.future.cancelled():
+            self._finish_stream()
+            return
+
+        if not future.exception():
+            self.socket.send_payload(
+                self.stream_id, future.result(), complete=True)
+        else:
+            self.socket.send_error(self.stream_id, future.exception())
+
+        self._finish_stream()""", kind='twin')
+
+# C11.o close() does not wait for the peer
+variant('b-sender-cleanup-drains-the-transport', ['C11'], RB,
+        "    async def _finally_sender(self):\n        pass",
+        "    async def _finally_sender(self):\n        transport = self._current_transport()\n        if transport.done():\n            await transport.result().on_send_queue_empty()",
+        ('C11.o', 'RSocketBase._finally_sender'))
